@@ -88,6 +88,8 @@ struct ShimHooks {
 	void (*on_read)(int fd, long n);
 	// pipe() called by a sim task succeeded
 	void (*on_pipe)(int rfd, int wfd);
+	// mmap() by a sim task succeeded
+	void (*on_mmap)(void *addr, size_t len, int prot, int flags, int fd);
 	// a sim process died (its descriptors are already closed)
 	void (*on_proc_death)(int spid);
 	// a path was created ('c' file, 'd' directory), chmod'ed ('m') or chown'ed ('o') by a sim task
